@@ -108,7 +108,7 @@ macro_rules! parts {
     }};
 }
 
-static SYS: LockStep = LockStep { property: "C08", probes: false, seed: None };
+static SYS: LockStep = LockStep { property: "C08", probes: false, seed: None, via_feed: false };
 
 /// every way of blanking cells must use the current pen
 fn blank_seed(cfg: &Cfg) -> Vec<Cmd> {
@@ -116,7 +116,7 @@ fn blank_seed(cfg: &Cfg) -> Vec<Cmd> {
     let s: String = (0..n).map(|i| char::from_u32('a' as u32 + (i % 26) as u32).unwrap()).collect();
     vec![Text(s), Cup(Some(1), Some(1))]
 }
-static SYS_BLANK: LockStep = LockStep { property: "C08", probes: false, seed: Some(&blank_seed) };
+static SYS_BLANK: LockStep = LockStep { property: "C08", probes: false, seed: Some(&blank_seed), via_feed: false };
 
 fn alpha_blank(cfg: &Cfg) -> Vec<Op> {
     let rows = cfg.rows as u32;
